@@ -64,6 +64,27 @@ def spec_candidates(spec, protected, keep_leaves=()):
                 if valid(s) and len(s["nodes"]) < len(spec["nodes"]):
                     yield s
                 break
+    # 2b. replace a value by a constant leaf of the same shape (cuts everything above it)
+    for node in spec["nodes"]:
+        for o in node["out"]:
+            if o in protected or not _consumers(spec, o):
+                continue
+            shp = shapes.get(o)
+            if shp is None:
+                continue
+            cname = "k_" + o
+            if any(leaf["name"] == cname for leaf in spec["leaves"]):
+                continue
+            n_el = 1
+            for d in shp:
+                n_el *= d
+            s = copy.deepcopy(spec)
+            s["leaves"].append({"name": cname, "shape": list(shp), "rg": False, "vals": [0.5 + 0.25 * (k % 4) for k in range(n_el)]})
+            for n in s["nodes"]:
+                n["in"] = [cname if x == o else x for x in n["in"]]
+            s = prune(s, protected | set(keep_leaves))
+            if len(s["nodes"]) < len(spec["nodes"]) and valid(s):
+                yield s
     # 3. replace a node by a simpler op of the same arity/shape (unary -> neg)
     for idx, node in enumerate(spec["nodes"]):
         if node["op"] in ("tanh", "sin", "square", "softplus", "sigmoid", "cube", "probe"):
